@@ -34,7 +34,7 @@ Definition acap (c : cfg) (bk : bkind) : option N :=
   | BStack size => Some (if c_sz c =? 0 then usize_max else size / c_sz c)
   | BStackN n _ => Some n
   | BEmpty => Some 0
-  | BHeap | BReloc => None
+  | BHeap | BReloc _ => None
   end.
 Definition full (c : cfg) (a : avec) : bool :=
   match acap c (a_bk a) with
